@@ -94,6 +94,16 @@ def shapes(line):
     return out
 
 
+def overlap_shapes(line):
+    """ordered pairs of spans of one multi-row GFF feature that overlap or nest (legal in GFF3: e.g. a segment inside another);
+    the earlier-starting segment may end later, so the record's extent is not its last segment's end"""
+    out = []
+    for a, b, c, d in itertools.product(range(line + 1), repeat=4):
+        if a < b and c < d and a <= c < b and (a, b) != (c, d):
+            out.append(((a, b), (c, d)))
+    return out
+
+
 def rec(table, seqid, biotype, name, spans, strand, tag):
     spans = tuple(sorted(tuple(s) for s in spans))
     return {"table": table, "seqid": seqid, "biotype": biotype, "name": name, "spans": spans, "strand": strand,
@@ -512,8 +522,9 @@ def check_text(acc, line):
     # through load_annotations into the two native tables: one db per strand holding every shape
     for cls in ("Gff", "Genbank"):
         for strand in "+-":
+            all_shapes = shapes(line) + (overlap_shapes(line) if cls == "Gff" else [])
             records = [rec(NATIVE[cls], "s1", "gene", f"n{i}" if cls == "Gff" else "n1", sh, strand, i % 2 == 1)
-                       for i, sh in enumerate(shapes(line))]
+                       for i, sh in enumerate(all_shapes)]
             acc.case(("load", cls, strand))
             r = call(lambda: all_rows(build_db(cls, records)))
             if r != ("ok", model_rows(records)):
